@@ -37,6 +37,9 @@ def modelClass : Out (List Rat) → String
 
 def between (x : Rat) : Bool := decide (0 < x) && decide (x < 1)
 
+/-- the branch ids are pairwise distinct (each branch has its own cell in the arrays TBE indexes by id) -/
+def distinctIds (t : T) : Bool := decide (t.splits.map (·.e.id)).Nodup
+
 /-- branch ids as the Newick parser assigns them: 0,1,2,… in `Edges()` order -/
 def parserIds (t : T) : Bool :=
   (t.splits.map (·.e.id)) == (List.range t.splits.length).map (fun (i : Nat) => ((i : Nat) : Int))
@@ -111,7 +114,7 @@ def supCase (mode th rd bds fo fa to ta : String) : Verdict :=
     let uniq := specUniq r && bs.all specUniq
     let wf := specWf r && bs.all specWf
     let mismatch := bs.any fun b => !sameTaxa r b
-    let ids := parserIds r
+    let ids := idsInRange r  -- the hypothesis of the TBE theorems (any numbering inside 0..#branches-1)
     let hyp := inputsOK r bs
     let thN : Int := th.toInt?.getD 1
     let nt := r.tipNames.length
@@ -120,7 +123,9 @@ def supCase (mode th rd bds fo fa to ta : String) : Verdict :=
       tagIf uniq "uniq" ++ tagIf wf "wf" ++ tagIf mismatch "mismatch" ++ tagIf hyp "hyp-inputsOK" ++
       tagIf (hypOK r bs) "hyp-hypOK" ++ tagIf (hypOK r bs && idsInRange r) "hyp-hypOK+idsInRange" ++
       tagIf (treeOK r && bs.all treeOK && idsInRange r && mismatch) "hyp-different_taxa" ++
-      tagIf (!ids) "ids-not-parser" ++ tagIf (!idsInRange r) "ids-out-of-range" ++
+      tagIf (!parserIds r) "ids-not-parser" ++ tagIf (!idsInRange r) "ids-out-of-range" ++
+      tagIf (idsInRange r && !parserIds r) "ids-permuted" ++
+      tagIf (r.splits.any fun s => s.tip && s.e.sup != NIL) "ref-tip-has-support" ++
       tagIf (uniq && !wf) "single-child-node" ++ tagIf (outClass to == "panic") "panic-outcome" ++ tagIf bs.isEmpty "empty" ++
       tagIf (nt < 4) "lt4tips" ++ fidelity "fbp" r fa? ++ fidelity "tbe" r ta? ++
       tagIf (r.splits.any fun s => !s.tip && s.e.sup != NIL) "ref-has-supports" ++
@@ -173,13 +178,20 @@ def stepCase (kind th pos share rd bds out after : String) : Verdict :=
     let uniq := specUniq r && bs.all specUniq
     let wf := specWf r && bs.all specWf
     let mismatch := bs.any fun b => !sameTaxa r b
-    let ids := parserIds r
+    let ids := idsInRange r  -- the hypothesis of the TBE theorems (any numbering inside 0..#branches-1)
     let thN : Int := th.toInt?.getD 1
     let isF := kind == "fbp"
+    if kind == "tbe-noindex" then
+      -- outside the precondition of TBE: correspondence with the model of that misuse only
+      (match tieOne "TBE (reference never indexed)" (tbeNotIndexed r bs) out a? approxAbs with
+       | some m => ⟨.tie, ["session", "session-tbe-noindex"], m⟩
+       | none => ⟨.pass, ["session", "session-tbe-noindex"], ""⟩) else
     let tags := ["session", "session-" ++ kind, "threads=" ++ th, "session-call-" ++ pos, "session-share-" ++ share] ++
       tagIf (((a?.map supsOf).getD []).any between) "nontrivial" ++ tagIf mismatch "mismatch" ++
       tagIf (r.splits.any fun s => !s.tip && s.e.sup != NIL) "ref-has-supports" ++
-      tagIf (hypOK r bs && idsInRange r) "hyp-hypOK+idsInRange"
+      tagIf (hypOK r bs && idsInRange r) "hyp-hypOK+idsInRange" ++
+      tagIf (idsInRange r && !parserIds r) "ids-permuted" ++
+      tagIf (r.splits.any fun s => s.tip && s.e.sup != NIL) "ref-tip-has-support"
     let gate := uniq && wf && !bs.isEmpty && (isF || ids)
     let orc : Option String :=
       if !gate then none
@@ -267,8 +279,8 @@ def parseBranches (s : String) : Option (List (Int × Int × Rat × List Rat)) :
 def logCase (rd bds cs out raws taxas brs : String) : Verdict :=
   match T.undump rd, parseDumps bds, parseRat? cs, parseRaw raws, parseTaxa taxas, parseBranches brs with
   | some r, some bs, some cutoff, some raw, some taxa, some branches =>
-    let ok := hypOK r bs && parserIds r
-    let tags := ["log"] ++ tagIf ok "hyp-log" ++ tagIf (taxa.any fun x => x.2 != 0) "nontrivial" ++
+    let ok := hypOK r bs && idsInRange r && distinctIds r
+    let tags := ["log"] ++ tagIf ok "hyp-log" ++ tagIf (ok && !parserIds r) "ids-permuted" ++ tagIf (taxa.any fun x => x.2 != 0) "nontrivial" ++
       tagIf (taxa.any fun x => x.2 != 0) "moved-taxa-nonzero" ++
       tagIf (branches.any fun x => decide (x.2.2.1 > 1)) "several-closest-branches"
     if !ok then ⟨.pass, "skip" :: tags, ""⟩
@@ -298,7 +310,8 @@ def logCase (rd bds cs out raws taxas brs : String) : Verdict :=
           -- its average transfer distance (each closest branch is reached by moving `dist` taxa)
           let rowsOK := branches.all fun x =>
             if x.2.1 > 1 then
-              match raw.find? (fun y => ((y.1 : Nat) : Int) == x.1) with
+              -- the raw tree numbers the branches by position, the table prints the branch id
+              match raw.find? (fun y => ((r.splits.map (·.e.id)).getD y.1 (-1)) == x.1) with
               | some y => decide (absR (x.2.2.2.sum - y.2.1) * 1000000 ≤ ((x.2.2.2.length + 1 : Nat) : Rat))
               | none => x.2.2.2.all (· == 0)
             else true
